@@ -8,6 +8,7 @@ import NfpmModel.RpmFiles
 import NfpmModel.RpmRel
 import NfpmModel.RpmSig
 import NfpmModel.DebControl
+import NfpmModel.ApkControl
 import NfpmModel.Package
 import NfpmModel.Spec.PlanSpec
 import NfpmModel.Spec.PayloadSpec
@@ -421,6 +422,14 @@ def handle (op : String) (args : List String) : Except String String :=
       pure (t, c, f, sc)) args
     let look (n : Bytes) : Option Bytes := (scripts.find? (fun p => p.1 = n)).map (·.2)
     pure (hex (Tar.archive (DebCtl.ipkMembers mtime control conf look)))
+  | "apkcontrolseg" => do
+    let (pkginfo, scripts) ← run1 (do
+      let p ← pBytes
+      let sc ← pList (do let n ← pBytes; let b ← pBytes; let t ← pNat; let d ← pBytes; pure (n, b, t, d))
+      pure (p, sc)) args
+    let look (n : Bytes) : Option (Bytes × Nat) := (scripts.find? (fun p => p.1 = n)).map (fun p => (p.2.1, p.2.2.1))
+    let sha (body : Bytes) : Bytes := ((scripts.find? (fun p => p.2.1 = body)).map (fun p => p.2.2.2)).getD []
+    pure (hex (Pkg.cut (ApkCtl.members sha pkginfo look)))
   | _ => .error s!"unknown op {op}"
 
 partial def loop (hin : IO.FS.Stream) (hout : IO.FS.Stream) : IO Unit := do
